@@ -97,7 +97,10 @@ AuxAfter(x, f, tlo, thi) ==
 AltCode13(f) == IF DFof(f) \in {4, 20} THEN AC13of(f) ELSE (AC12of(f) \div 64) * 128 + (AC12of(f) % 64)
 AltTagOf(f) ==
   LET c == AltCode13(f)  t == AltTag(c) IN
-  IF t # "alt.Q0" THEN t
+  \* the all-zero AC12 code of a squitter also goes through the implementation's Gillham branch (Q = 0), which reads the
+  \* address bits: same root cause and same tag as the listed finding
+  IF t = "alt.zero" /\ DFof(f) = 17 THEN "alt.Q0.ext"
+  ELSE IF t # "alt.Q0" THEN t
   ELSE IF DFof(f) \in {4, 20} THEN "alt.Q0." \o ToString(c) ELSE "alt.Q0.ext"
 FrameTag(f) ==
   IF DFof(f) \in {4, 20} \/ IsAirPos(f) THEN AltTagOf(f)
